@@ -24,7 +24,7 @@ CACHE = B.CACHE
 
 ASSUMPTIONS_COMMON = [
     "x86-64 Linux, g++ 12 / libstdc++; the library is built from /repo's working tree with -O1 -fsanitize=address,undefined "
-    "(alignment and bool checks off, see DESIGN.md 1.1) -D_GLIBCXX_ASSERTIONS -DNIFLY_VERIF",
+    "(alignment, bool and enum checks off, see DESIGN.md 1.1) -D_GLIBCXX_ASSERTIONS -DNIFLY_VERIF",
     "the NIFLY_VERIF hooks only pass information out and never change a value, so monitored executions are the real executions",
     "a clean sanitizer run is not a proof of memory safety (red-zone tools miss non-adjacent / intra-object overflows)",
 ]
